@@ -1,6 +1,7 @@
 package props
 
 import (
+	"encoding/json"
 	"fmt"
 	"strings"
 
@@ -36,6 +37,12 @@ func (o c18op) tokens(kids []*gen.SNode) string {
 		return fmt.Sprintf("DR %d %d %s", o.i, len(o.key), strings.Join(ks, " "))
 	case "R":
 		return fmt.Sprintf("R %d %s", o.i, strings.Join(gen.DataTokens(kids[o.i], o.data), " "))
+	case "RR":
+		ks := []string{}
+		for _, k := range o.key {
+			ks = append(ks, "h"+core.Hex(k))
+		}
+		return fmt.Sprintf("RR %d %d %s %s", o.i, len(o.key), strings.Join(ks, " "), strings.Join(gen.BodyTokens(kids[o.i].Kids, o.doc), " "))
 	}
 	return ""
 }
@@ -52,6 +59,8 @@ func (o c18op) describe(kids []*gen.SNode) string {
 		body := gen.EmptyBody(kids)
 		body[o.i] = o.data
 		return "replace " + kids[o.i].Name + " with " + gen.Canon(kids, body, false)
+	case "RR":
+		return fmt.Sprintf("replace entry %s=%q with %s", kids[o.i].Name, o.key, gen.Canon(kids[o.i].Kids, o.doc, false))
 	}
 	return "?"
 }
@@ -105,7 +114,7 @@ func C18(c *core.Ctx) {
 		}
 		for ci := 0; ci < perSchema; ci++ {
 			r := rng.Fork()
-			tgtKind := core.Pick(r, []string{"refstore", "refstore", "reflect-map"})
+			tgtKind := core.Pick(r, []string{"refstore", "refstore", "reflect-map", "node-map"})
 			init := gen.GenBody(r, dc.kids, 40+r.Intn(55), o)
 			locs := []editLoc{{"", dc.kids, init, "root", 0}}
 			findLocs(dc.kids, init, "", 0, &locs)
@@ -119,9 +128,12 @@ func C18(c *core.Ctx) {
 			tree := init
 			if tgtKind == "refstore" {
 				root = refstore.NewBody(nil, dc.kids, tree, "")
-			} else {
+			} else if tgtKind == "reflect-map" {
 				tgtMap = gen.ToMap(dc.kids, tree)
 				root = nodeutil.ReflectChild(tgtMap)
+			} else {
+				tgtMap = gen.ToMap(dc.kids, tree)
+				root = &nodeutil.Node{Object: tgtMap}
 			}
 			b := node.NewBrowser(dc.m, root)
 			selAt := func(path string) (*node.Selection, error) {
@@ -192,6 +204,16 @@ func C18(c *core.Ctx) {
 						}
 					}
 					op = c18op{kind: "DR", i: i, key: key}
+					if len(cur[i].Rows) > 0 && r.Chance(35) {
+						// replace an existing entry by a fresh one with the same key
+						row := core.Pick(r, cur[i].Rows)
+						nb := gen.GenBody(r, loc.kids[i].Kids, 60, o)
+						for j := 0; j < loc.kids[i].NKeys; j++ {
+							kv := row.Key[j]
+							nb[j] = &gen.DNode{Leaf: &kv}
+						}
+						op = c18op{kind: "RR", i: i, key: row.Key, doc: nb}
+					}
 				default:
 					i := core.Pick(r, structural)
 					d := gen.GenData(r, loc.kids[i], 100, o)
@@ -229,6 +251,22 @@ func C18(c *core.Ctx) {
 						opErr = err
 					} else if sel != nil {
 						opErr = safeDo(sel.Delete)
+					}
+				case "RR":
+					sel, err := selAt(keyPath(loc.kids[op.i].Name, op.key))
+					doc := gen.EmptyBody(loc.kids)
+					doc[op.i] = &gen.DNode{Rows: []*gen.DRow{{Key: op.key, Kids: gen.Clone(op.doc)}}}
+					if err != nil {
+						opErr = err
+					} else if sel != nil {
+						var src node.Node = refstore.NewBody(nil, loc.kids, doc, "src")
+						if r.Chance(50) {
+							jb, _ := json.Marshal(gen.ToMap(loc.kids, doc))
+							src, _ = nodeutil.ReadJSON(string(jb))
+						}
+						opErr = safeDo(func() error { return sel.ReplaceFrom(src) })
+					} else {
+						opErr = fmt.Errorf("entry to replace not found")
 					}
 				case "R":
 					sel, err := selAt(loc.kids[op.i].Name)
@@ -342,7 +380,7 @@ func C18(c *core.Ctx) {
 			continue
 		}
 		if p.impl != want {
-			if p.target == "reflect-map" && p.input["compound_list_in_go_map"] == true && c.IsKnown("map-list-compound-key", p.desc) {
+			if p.target != "refstore" && p.input["compound_list_in_go_map"] == true && c.IsKnown("map-list-compound-key", p.desc) {
 				continue
 			}
 			c.Violation(core.Replay{Kind: "property-failure", Class: "ops-" + p.target + "-" + strings.Fields(p.history[len(p.history)-1])[0],
